@@ -65,7 +65,7 @@ NormContract(s) ==
 
 (* ------------------------------ enumeration ----------------------------- *)
 VARIABLE c     \* one case: [s, norm, strat, thr, mr]
-Cases == [s : UNION {[1..n -> 0..MaxScore] : n \in 0..MaxLen}, norm : BOOLEAN, strat : {"abs", "rel"},
+Cases == [s : UNION {[1..n -> (-2)..MaxScore] : n \in 0..MaxLen}, norm : BOOLEAN, strat : {"abs", "rel"},
           thr : Thresholds, mr : MinResults]
 Init == c \in Cases
 Next == UNCHANGED c
